@@ -585,15 +585,28 @@ func (g *gen) genMixed(n int, withMut bool) {
 	for _, op := range g.errorPathOps() {
 		put(op)
 	}
+	// designed pairs: calls that share a key a hidden cache could be indexed by (size, version, layer count, column
+	// count, length) but differ in another parameter; larger before smaller and back; the same call twice
+	for _, op := range g.historyPairs() {
+		put(op)
+	}
 	for i := 0; i < n; i++ {
 		switch g.intn(10) {
 		case 0, 1, 2:
 			put(pool[g.intn(len(pool))])
 		case 3:
 			// QR / DataMatrix / Aztec with varying sizes: exercises the shared RS caches in changing degree order
-			v := 1 + g.intn(20)
+			// random bytes, so that all eight masks win (text over a small alphabet lets mask 2 win nearly always); a few
+			// versions only, so that the same size recurs at different levels and with different winning masks (seed u06:
+			// candidate bitmaps kept per size carry the format information of an earlier level)
+			v := []int{1, 2, 5, 7, 7, 8, 9, 10, 10, 14, 20}[g.intn(11)]
 			lvl := g.intn(4)
-			put(fmt.Sprintf("qr %s %d 3", hx(g.str("abcdefgh", qrCapacity(v, lvl, 3))), lvl))
+			n := qrCapacity(v, lvl, 3) - g.intn(3)
+			if g.intn(3) == 0 {
+				put(fmt.Sprintf("qr %s %d 3", hx(g.str("abcdefgh", n)), lvl))
+			} else {
+				put(fmt.Sprintf("qr %s %d %d", hx(g.bytes(n)), lvl, []int{3, 3, 0}[g.intn(3)]))
+			}
 		case 4:
 			// all 24 sizes; every other one from the multi-block sizes (52x52 and up), whose check words are computed
 			// per interleaved block (seed t06: scratch space shared between concurrent multi-block encodes)
@@ -620,4 +633,68 @@ func (g *gen) genMixed(n int, withMut bool) {
 			}
 		}
 	}
+}
+
+
+// historyPairs: see genMixed
+func (g *gen) historyPairs() []string {
+	var out []string
+	add := func(format string, a ...interface{}) { out = append(out, fmt.Sprintf(format, a...)) }
+	// QR: one version at every ordered pair of levels (version 7 has version information and alignment patterns on
+	// the timing lines), two more versions at a few pairs; random bytes so that the winning mask varies
+	for _, v := range []int{7, 2, 10} {
+		for a := 0; a < 4; a++ {
+			for b := 0; b < 4; b++ {
+				if a == b || (v != 7 && (a+b)%2 == 0) {
+					continue
+				}
+				add("qr %s %d 3", hx(g.bytes(qrCapacity(v, a, 3)-g.intn(2))), a)
+				add("qr %s %d 3", hx(g.bytes(qrCapacity(v, b, 3)-g.intn(2))), b)
+			}
+		}
+	}
+	// numeric / alphanumeric / auto at one size
+	for _, m := range []int{1, 2, 0, 3} {
+		mm := m
+		if m == 0 {
+			mm = 1
+		}
+		add("qr %s 1 %d", hx(g.qrContent(mm, qrCapacity(8, 1, mm)-1)), m)
+	}
+	// DataMatrix: large, small, the same size with other content, the 12x12..24x24 sizes after larger ones
+	for _, k := range []int{23, 3, 3, 17, 5, 5, 14, 7, 7, 20, 9, 1, 1, 15, 15, 0} {
+		add("dm %s", hx(g.dmContent(g.intn(5), dmCaps[k]-g.intn(2))))
+	}
+	// Aztec: the same layer count with other percentages / contents, compact after full and back, large then small
+	for _, l := range []int{5, 5, -3, 3, -3, 12, 2, 2, -1, 22, 1, 0, 0} {
+		n := 6
+		if l > 4 {
+			n = 40 + g.intn(60)
+		}
+		add("aztec %s %d %d", hx(g.str("Aztec 12,abc.\x80\xff\x00", n+g.intn(6))), []int{5, 23, 33, 50}[g.intn(4)], l)
+	}
+	add("aztec %s 23 0", hx(strings.Repeat("\xff", 900)))
+	add("aztec %s 23 0", hx("\xff"))
+	// PDF417: the same content at every level (same data, other check words and dimensions), long then short
+	txt := g.str("PDF417 text, 0123456789;\x80", 60)
+	for lvl := 0; lvl <= 8; lvl++ {
+		add("pdf %s %d", hx(txt), lvl)
+	}
+	add("pdf %s 2", hx(g.str(digits, 400)))
+	add("pdf %s 2", hx("7"))
+	add("pdf %s 5", hx(g.str("ab\x80", 300)))
+	add("pdf %s 5", hx("ab"))
+	// 1D: long then short, the same length with other content
+	for _, n := range []int{60, 3, 3, 20, 20, 1} {
+		add("c128 %s", hx(g.str("Aa1\x01", n)))
+		add("c39 %s 1 1", hx(g.str("Ab1%", n)))
+		add("c93 %s 1 1", hx(g.str("Ab1%", n)))
+		add("codabar %s", hx("A"+g.str("0123456789-$", n)+"B"))
+		add("tof %s 1", hx(g.str(digits, 2*n)))
+	}
+	for i := 0; i < 4; i++ {
+		add("ean %s", hx(g.str(digits, 12)))
+		add("ean %s", hx(g.str(digits, 7)))
+	}
+	return out
 }
